@@ -285,6 +285,8 @@ def main():
     ap.add_argument("--out", default=None)
     ap.add_argument("--max", type=int, default=0)
     ap.add_argument("--show-killed", action="store_true")
+    ap.add_argument("--emit", action="append", default=[], help="regex on 'L<line> <desc>': append matching KILLED mutants to variants/<pid>.json as break variants")
+    ap.add_argument("--emit-twin", action="append", default=[], help="same, but SURVIVING mutants recorded as twins (expect silent)")
     a = ap.parse_args()
     pid = a.pid.upper()
     ev = json.load(open(f"/verif/evidence/{pid}.json"))
@@ -334,6 +336,36 @@ def main():
                 print(f"== {cur}  ({job[1]})")
             mark = {"silent": "SURV", "VIOLATION": "kill", "ANALYSIS-ERROR": "AERR"}[tag]
             print(f"  {mark} {job[5]:5s} {job[6]}" + (f"   [{first[:100]}]" if first and tag != "silent" else ""))
+    if a.emit or a.emit_twin:
+        vp = f"/verif/variants/{pid}.json"
+        vs = json.load(open(vp)) if os.path.exists(vp) else []
+        have = {json.dumps(v["subs"]) for v in vs}
+        n = 0
+        for job, tag, first in res:
+            _, rel, st, en, txt, op, desc, fq = job
+            ln, rest = desc.split(" ", 1)
+            mkey = f"{ln} {op} {rest}"
+            want = "VIOLATION" if any(re.search(x, mkey) for x in a.emit) else "silent" if any(re.search(x, mkey) for x in a.emit_twin) else None
+            if want is None or tag != want:
+                if want is not None:
+                    print(f"  (not emitted, result {tag} != {want}: {desc})")
+                continue
+            raw = srcs[rel].raw
+            ls = raw.rfind(b"\n", 0, st) + 1
+            le = raw.find(b"\n", en)
+            le = len(raw) if le < 0 else le
+            while raw.count(raw[ls:le]) != 1 and ls > 0:
+                ls = raw.rfind(b"\n", 0, ls - 1) + 1
+            old = raw[ls:le].decode()
+            new = (raw[ls:st] + txt + raw[en:le]).decode()
+            sub = [[rel, old, new]]
+            if json.dumps(sub) in have:
+                continue
+            vs.append({"name": f"{fq.split('.')[-1]} {desc}"[:150], "subs": sub, "expect": want, "origin": "automutate, triaged by hand"})
+            have.add(json.dumps(sub))
+            n += 1
+        json.dump(vs, open(vp, "w"), indent=1)
+        print(f"emitted {n} variant(s) to {vp}")
     if a.out:
         json.dump([{"func": j[7], "file": j[1], "op": j[5], "desc": j[6], "result": t} for j, t, f in res], open(a.out, "w"), indent=1)
 
